@@ -6,12 +6,13 @@ import Driver.Headers
 import Driver.Cookie
 import Driver.Parser
 import Driver.Router
+import Driver.Promise
 
 open Drv
 
 def dispatch (line : String) : String :=
   let ws := words line
-  let ops : List (List String → Option String) := [base64Op, mimeOp, netOp, headersOp, cookieOp, parserOp, routerOp]
+  let ops : List (List String → Option String) := [base64Op, mimeOp, netOp, headersOp, cookieOp, parserOp, routerOp, promiseOp]
   match ops.findSome? (fun f => f ws) with
   | some r => r
   | none => "bad-op"
